@@ -3,6 +3,7 @@ package streams
 import (
 	"math"
 	"sort"
+	"strconv"
 	"strings"
 
 	"go.mongodb.org/mongo-driver/bson"
@@ -375,6 +376,12 @@ func init() {
 					}
 				}
 			}
+			// independent statements of the two operator overlays (single-operator projections on a top-level array)
+			if ok && !malformed && inDomain {
+				if v := overlayOracle(doc, proj); v != "" {
+					viols = append(viols, run.Violation{Property: "C14", What: v, Witness: "project-overlay-oracle", Req: req, Detail: impl})
+				}
+			}
 			c.Viols = viols
 			return []run.Case{c}
 		},
@@ -386,4 +393,123 @@ func init() {
 		}
 		return projectReply(r.doc("d"), r.doc("p"))
 	}
+}
+
+// wholeInt reads an integer-valued number.
+func wholeInt(v interface{}) (int64, bool) {
+	switch x := v.(type) {
+	case int32:
+		return int64(x), true
+	case int64:
+		return x, true
+	case float64:
+		if x == math.Trunc(x) && math.Abs(x) < 1e15 {
+			return int64(x), true
+		}
+	}
+	return 0, false
+}
+
+// overlayOracle states $slice and $elemMatch projections from their definition, for projections that consist of
+// exactly one such operator on a top-level array field (plus optionally _id). It returns a description of the
+// difference, or "".
+func overlayOracle(doc, proj bson.D) string {
+	var ops []bson.E
+	for _, e := range proj {
+		if e.Key == "_id" {
+			continue
+		}
+		ops = append(ops, e)
+	}
+	if len(ops) != 1 || strings.Contains(ops[0].Key, ".") || ops[0].Key == "" {
+		return ""
+	}
+	od, isDoc := ops[0].Value.(bson.D)
+	if !isDoc || len(od) != 1 {
+		return ""
+	}
+	f := ops[0].Key
+	arr, isArr := bsonkit.Get(&doc, f).(bson.A)
+	if !isArr {
+		return ""
+	}
+	d := doc
+	res, err := mongokit.Project(bsonkit.Clone(&d), &proj)
+	if err != nil {
+		return ""
+	}
+	got := bsonkit.Get(res, f)
+	switch od[0].Key {
+	case "$slice":
+		n := int64(len(arr))
+		var start, end int64
+		if c, ok := wholeInt(od[0].Value); ok {
+			if c >= 0 {
+				start, end = 0, c
+			} else {
+				start, end = n+c, n
+			}
+		} else if pair, ok := od[0].Value.(bson.A); ok && len(pair) == 2 {
+			skip, ok1 := wholeInt(pair[0])
+			limit, ok2 := wholeInt(pair[1])
+			if !ok1 || !ok2 || limit <= 0 {
+				return ""
+			}
+			if skip >= 0 {
+				start = skip
+			} else {
+				start = n + skip
+			}
+			if start < 0 {
+				start = 0
+			}
+			if start > n {
+				start = n
+			}
+			end = start + limit
+			if limit > n {
+				end = n
+			}
+		} else {
+			return ""
+		}
+		if start < 0 {
+			start = 0
+		}
+		if start > n {
+			start = n
+		}
+		if end > n {
+			end = n
+		}
+		if end < start {
+			end = start
+		}
+		want := append(bson.A{}, arr[start:end]...)
+		if vj.Enc(got) != vj.Enc(want) {
+			return "$slice " + vj.Enc(od[0].Value) + " of an array of " + strconv.Itoa(len(arr)) + " elements: want " + vj.Enc(want)
+		}
+	case "$elemMatch":
+		cond, ok := od[0].Value.(bson.D)
+		if !ok {
+			return ""
+		}
+		var want interface{} = bsonkit.Missing
+		for _, e := range arr {
+			w := bson.D{{Key: "w", Value: bson.A{e}}}
+			q := bson.D{{Key: "w", Value: bson.D{{Key: "$elemMatch", Value: cond}}}}
+			m, err := mongokit.Match(&w, &q)
+			if err != nil {
+				return ""
+			}
+			if m {
+				want = bson.A{e}
+				break
+			}
+		}
+		if vj.Enc(got) != vj.Enc(want) {
+			return "$elemMatch projection: want the first matching element " + vj.Enc(want)
+		}
+	}
+	return ""
 }
